@@ -23,7 +23,11 @@ func newModel(thorough bool) *chainprop.Model {
 	m.Std()
 	m.StdDrive()
 	m.Singles(false)
-	m.Pairs()
+	if thorough {
+		m.Pairs()
+	} else {
+		m.PairsUpTo(1)
+	}
 	if thorough {
 		var core []int
 		for i, t := range m.Menu {
@@ -103,7 +107,7 @@ func main() {
 		return
 	}
 	run.SetBudget(6*60e9, 40*60e9)
-	depth := 2
+	depth := 3
 	if d := os.Getenv("VERIF_DEPTH"); d != "" {
 		fmt.Sscan(d, &depth)
 	}
